@@ -141,6 +141,8 @@ class Ref:
         n = self.nodes[i]
         if n['type'] == 'TP':
             return {k: v for k, v in context.items() if k in n.get('ctxkeys', [])}
+        if n['type'] == 'TF':
+            return {'alpha': context.get('alpha'), 'depth': context.get('depth', 0) + 1}
         return dict(context)
 
     def value_of(self, i, context: dict, dep_digests, shape=None) -> Value:
@@ -300,7 +302,7 @@ SCALARS = [
     ['s', 'int', -3], ['s', 'str', ''],
 ]
 
-DEFAULT_TYPES = [('TA', 4), ('TB', 3), ('TC', 3), ('TD', 2), ('TN', 2), ('TN1', 1), ('TP', 2)]
+DEFAULT_TYPES = [('TA', 4), ('TB', 3), ('TC', 3), ('TD', 2), ('TN', 2), ('TN1', 1), ('TN2', 2), ('TP', 2), ('TF', 1)]
 
 
 def wrap_refs(st: Stream, refs: list) -> list:
